@@ -78,6 +78,9 @@ class Accum(object):
             raise ValueError("boom", 42)
         if kind == "key":
             raise KeyError("nokey")
+        if kind == "pyro-timeout":
+            from Pyro5 import errors as _errors
+            raise _errors.TimeoutError("nested call timed out")     # e.g. a proxy call made inside the method failed
         raise ZeroDivisionError("division by zero")
 
     @server.expose
